@@ -353,7 +353,15 @@ func (x *Exec) elemBaseFacts(base []string, cs []Comp, allocTerm string) {
 func (x *Exec) elemReadAbs(st *State, key string, et types.Type, arr, idx string) Val {
 	l := x.lazyFor(st, et)
 	x.noteRead(key, et)
-	return unflatten(et, l.read(arr, idx))
+	var log []IdxT
+	terms := l.readL(arr, idx, &log)
+	for _, it := range log {
+		st.addIdxSeq(it.T, it.Seq)
+		if x.idxLog != nil {
+			*x.idxLog = append(*x.idxLog, it)
+		}
+	}
+	return unflatten(et, terms)
 }
 
 // elemRead reads s[i] (i relative to the slice)
